@@ -10,7 +10,9 @@
 (* common denominator in 32 bits): the off-diagonal entries come as        *)
 (* Qme <<[i, j, m, e]>> with Q_ij = m * base^e / 36, m not divisible by    *)
 (* base, and the row sums as rowRes12 = max_i |sum_j Q_ij| / max_j |Q_ij|  *)
-(* in units of 1e-12.                                                      *)
+(* in units of 1e-12.  cap12 (three records): max relative deviation of   *)
+(* Q_01, Q_10 of a two-cell system with E_0 - E_1 in {499, 500, 500.5,    *)
+(* 503, 650} kJ/mol from exp(min(dE,500)/2RT), exp(-dE/2RT), 1e-12.       *)
 (***************************************************************************)
 EXTENDS Integers, Sequences, FiniteSets, TLC, Json, IOUtils
 
@@ -37,6 +39,7 @@ WideClause(r) ==
      ELSE IF \E p \in inst.pat : LET q == O!QWide(inst, p[1], p[2]) IN <<r.Qme[at(p)][3], r.Qme[at(p)][4]>> # q
           THEN "off-diagonal entry differs from D*S/(h*V_i)*exp((E_i-E_j)/2RT)"
      ELSE IF r.rowRes12 > 1000 THEN "row does not sum to zero"
+     ELSE IF r.cap12 > 1000 THEN "the one-sided cap is not at 500 kJ/mol (pairs just below / at / just above it)"
      ELSE IF r.shift12 > 1000 THEN "not invariant under a constant energy shift"
      ELSE IF r.linear12 > 1000 THEN "not linear in D"
      ELSE "ok"
